@@ -470,17 +470,24 @@ Definition aentries (r : res (amap P N)) : res (list (P * N)) :=
   match r with Ok am => a_entries P N am | Panic => Panic | OutOfFuel => OutOfFuel end.
 
 Definition p (r l : N) : P := mkpfx r l.
+Fixpoint ids_of (t : tree P N) : list N :=
+  match t with Leaf => [] | Node i _ _ l r => i :: ids_of l ++ ids_of r end.
 Open Scope N_scope.
 
-(** NewLeaf (slot 1), NewBranch (branch slot 2 allocated before the leaf slot 3), then the collapse case of
-    [_remove_node]: removing the leaf 10/2 unlinks the value-less branch 1/1 too; the free list
-    is [branch; leaf] (branch on top); the next insert (NewBranch again) reuses the branch's
-    old slot for the new branch and the leaf's old slot for the new leaf. *)
+(** NewLeaf 10/2 (slot 1); NewBranch for 11/2 (branch 1/1 in slot 2, allocated before the leaf
+    in slot 3); then the collapse case of [_remove_node]: removing the leaf 10/2 also unlinks
+    the value-less branch, the free list becomes [2; 1] (the branch's slot on top of the leaf's);
+    the next insert (NewLeaf 01/2) recycles slot 2, the one after (NewBranch for 10/2) recycles
+    slot 1 for the branch and grows the arena (slot 4) for the leaf. *)
 Definition h1 : list (aop P N) :=
   [AIns (p 128 2) 1; AIns (p 192 2) 2; ARem (p 128 2); AIns (p 64 2) 3; AIns (p 128 2) 4].
 Example h1_state : snap (arun h1) = Some (trun h1).
 Proof. vm_compute. reflexivity. Qed.
 Example h1_outs : aouts h1 = Ok (touts h1).
+Proof. vm_compute. reflexivity. Qed.
+Example h1_slots :
+  option_map (fun m => (ids_of (root m), free (al m), alen (al m))) (snap (arun h1))
+  = Some ([0; 2; 1; 4; 3], [], 5).
 Proof. vm_compute. reflexivity. Qed.
 (** the state after the collapse: root(0) -> 11/2 (slot 3); free list = [2; 1] (the branch's slot 2 on top
     of the leaf's slot 1) *)
